@@ -187,8 +187,6 @@ class ColrReader:
         if f == GLYPH:
             segs = self.outline(p.Glyph, M)
             paint = self.fill(p.Paint, M)
-            if not segs:
-                return []
             return [Leaf(segs, paint, anorm(M), p.Glyph)]
         if TRANSFORM <= f <= VARSKEWC:
             return self.walk(p.Paint, amul(M, paint_matrix(f, g)), seen + (id(p),))
@@ -215,8 +213,6 @@ class ColrReader:
             out = []
             for lname, pidx in self.v0[gname]:
                 segs = self.outline(lname, I)
-                if not segs:
-                    continue
                 out.append(Leaf(segs, self.color(pidx, 1.0), 1.0, lname))
             return out
         return []
